@@ -417,6 +417,26 @@ func c15YAMLDirect(c *vkit.Ctx, r *rand.Rand, i int) {
 		c.Count("premise_yaml_emitter_roundtrip_failed", 1)
 		return
 	}
+	// multi-document stream: a second (and third) document with disjoint keys follows; the
+	// matcher's path exists only in the first one, the others must come out unchanged
+	var tail []*vkit.JNode
+	if r.IntN(4) == 0 {
+		for k := 0; k < 1+r.IntN(2); k++ {
+			t := vkit.YAMLTreeDoc(r, 2)
+			for i := range t.Keys {
+				t.Keys[i] = fmt.Sprintf("z%d_%s", k, t.Keys[i])
+			}
+			tail = append(tail, t)
+			if !strings.HasSuffix(text, "\n") {
+				text += "\n"
+			}
+			text += "---\n" + vkit.YAMLFromTree(t)
+		}
+		if all, err := vkit.ParseYAMLDocs(text); err != nil || len(all) != 1+len(tail) {
+			c.Count("premise_yaml_emitter_roundtrip_failed", 1)
+			return
+		}
+	}
 	p, ok := pickPath(r, d, func(vkit.JPath) bool { return true })
 	if !ok {
 		return
@@ -443,9 +463,16 @@ func c15YAMLDirect(c *vkit.Ctx, r *rand.Rand, i int) {
 		class = "yaml-nonscalar-placeholder"
 	}
 	gd, err := vkit.ParseYAMLDocs(string(out))
-	if err != nil || len(gd) != 1 {
-		c.Violate("matcher-output-invalid-yaml", class, fmt.Sprintf("%s(%q) placeholder %s: output does not decode to one document (%v): %s", spec.Kind, spec.PathS, phk, err, vkit.Q(string(out))), in)
+	if err != nil || len(gd) != 1+len(tail) {
+		c.Violate("matcher-output-invalid-yaml", class, fmt.Sprintf("%s(%q) placeholder %s: output does not decode to %d document(s) (%v, got %d): %s", spec.Kind, spec.PathS, phk, 1+len(tail), err, len(gd), vkit.Q(string(out))), in)
 		return
+	}
+	for k, t := range tail {
+		if diff := t.Equal(gd[1+k], true); diff != "" {
+			c.Violate("matcher-changed-another-document", class, fmt.Sprintf("document %d of the stream changed at %s; output %s", 2+k, diff, vkit.Q(string(out))), in)
+			return
+		}
+		c.Count("yaml_multidoc_tail_documents_checked", 1)
 	}
 	if diff := exp.Equal(gd[0], true); diff != "" {
 		c.Violate("matcher-changed-other-than-target", class, fmt.Sprintf("YAML %s(%q) placeholder %s: differs from set(input, path, placeholder) at %s; output %s", spec.Kind, spec.PathS, phk, diff, vkit.Q(string(out))), in)
